@@ -140,3 +140,41 @@ Fixpoint server_run (cfg : scfg) (st : sstate) (h : list sevent) : option (sstat
     | Panic _ => server_run cfg st h'
     end
   end.
+
+(* ---- the lease-store view of a history (for lifting C01) --------------------- *)
+(* the lease-store step a datagram causes, if it gets as far as allocate_address;
+   the flag says that no frame went out (the grant, if any, never reached the client) *)
+Definition pool_event (cfg : scfg) (st : sstate) (ev : sevent) : option (event * bool) :=
+  match decode (se_bytes ev) with
+  | Ok m =>
+    let w := walk_of cfg (request_of (se_env ev) m) in
+    match handle (step_in_of (snd st) (se_env ev) w (se_t2 ev) None) (leases_of (fst st)) m with
+    | (NoReply PoolError, _) =>
+      Some (EAlloc (op_of cfg w m) (se_t1 ev) (se_t2 ev) (se_ans ev),
+            match server_step cfg st (se_t1 ev) (se_t2 ev) (se_env ev) (se_bytes ev) (se_ans ev) with
+            | Ok (_, Some _) => false
+            | _ => true
+            end)
+    | _ => None
+    end
+  | _ => None
+  end.
+
+Fixpoint pool_history (cfg : scfg) (st : sstate) (h : list sevent) : list (event * bool) :=
+  match h with
+  | [] => []
+  | ev :: h' =>
+    match server_step cfg st (se_t1 ev) (se_t2 ev) (se_env ev) (se_bytes ev) (se_ans ev) with
+    | Ok (st', _) =>
+      (match pool_event cfg st ev with Some pe => [pe] | None => [] end) ++ pool_history cfg st' h'
+    | Err _ => []
+    | Panic _ => pool_history cfg st h'
+    end
+  end.
+
+(* clock reads sorted, no u32 wrap *)
+Fixpoint wf_times (M now : N) (h : list sevent) : bool :=
+  match h with
+  | [] => true
+  | ev :: h' => (now <=? se_t1 ev) && (se_t1 ev <=? se_t2 ev) && (se_t2 ev + M <? pow2 32) && wf_times M (se_t2 ev) h'
+  end.
